@@ -2080,6 +2080,12 @@ void XMLReader::handleEOL(XMLCh& curCh, bool inDecl)
             fCurLine++;
             curCh = chLF;
         }
+        else
+        {
+            // Not a line break here (XML 1.0, or an internal entity):
+            // it occupies a column like any other character
+            fCurCol++;
+        }
         break;
     default:
         fCurCol++;
